@@ -60,6 +60,8 @@ type Net struct {
 	flows     []*flow
 	flowOrd   map[[3]int]uint64
 	pktOrd    map[[2]int]uint64
+	dialLog   [4096]dialRec
+	dialN     int
 }
 
 // N is the network of this process' run (used by the rewritten olric code).
@@ -548,6 +550,28 @@ func (l *Listener) Close() error {
 }
 func (l *Listener) Addr() net.Addr { return l.addr }
 
+type dialRec struct {
+	at              time.Duration
+	src, dst, class int
+}
+
+// RecentDials counts the RESP streams opened between nodes below maxNode (the members) since the
+// given simulated instant (at most the last 4096 dials are remembered). A quiet cluster reuses its
+// pooled connections; hundreds of new member-to-member connections per second are the signature of
+// requests bouncing between members whose routing tables disagree.
+func (n *Net) RecentDials(since time.Duration, maxNode int) int {
+	n.mu.Lock()
+	defer n.mu.Unlock()
+	c := 0
+	for i := 0; i < len(n.dialLog) && i < n.dialN; i++ {
+		r := n.dialLog[i]
+		if r.at >= since && r.class == ClassRESP && r.src < maxNode && r.dst < maxNode {
+			c++
+		}
+	}
+	return c
+}
+
 // Dial opens a stream from (srcNode, inc) to addr.
 func (n *Net) Dial(srcNode, inc int, addr string) (net.Conn, error) {
 	dst := NodeOf(addr)
@@ -597,6 +621,8 @@ func (n *Net) Dial(srcNode, inc int, addr string) (net.Conn, error) {
 	lat := n.latency("acc", f.id)
 	due := n.K.Now() + lat
 	f.lastDue[0] = due
+	n.dialLog[n.dialN%len(n.dialLog)] = dialRec{n.K.Now(), srcNode, dst, class}
+	n.dialN++
 	n.mu.Unlock()
 	n.K.Count("net.dials", 1)
 	n.K.At(due, simrt.ClassAccept, [3]uint64{f.id, 0, 0}, "accept", func() {
